@@ -1,12 +1,12 @@
 #!/bin/bash
-# usage: tools/seed_ingest2.sh <Cxx>  — second round: /tmp/w2_<Cxx>/_seed/<Cxx>_<i> -> /verif/seeded/<Cxx>_<i+2>; drop the worktree; evaluate
+# usage: tools/seed_ingest2.sh <Cxx>  — second round: /tmp/w3_<Cxx>/_seed/<Cxx>_<i> -> /verif/seeded/<Cxx>_<i+2>; drop the worktree; evaluate
 p=$1
 names=""
-for d in /tmp/w2_$p/_seed/${p}_*; do
+for d in /tmp/w3_$p/_seed/${p}_*; do
   [ -d "$d" ] || continue
-  i=${d##*_}; n=${p}_$((i+2)); mkdir -p /verif/seeded/$n
+  i=${d##*_}; n=${p}_$((i+${SEED_OFFSET:-2})); mkdir -p /verif/seeded/$n
   cp $d/patch.diff $d/demo.py $d/meta.json /verif/seeded/$n/ 2>/dev/null
   names="$names $n"
 done
-git -C /repo worktree remove --force /tmp/w2_$p; rm -rf /tmp/w2_$p
+git -C /repo worktree remove --force /tmp/w3_$p; rm -rf /tmp/w3_$p
 cd /verif && [ -n "$names" ] && tools/seed_eval.sh $names
